@@ -64,8 +64,8 @@ func histExec(op M) (res any) {
 			return "unknown-op"
 		}
 		switch s.i {
-		case "union", "intersect", "add", "removeNodes", "relateList", "nodeGraph", "nodeSiblings", "nodeDescendants", "purlType":
-		case "relateNode":
+		case "union", "intersect", "add", "removeNodes", "relateList", "nodeGraph", "nodeSiblings", "nodeDescendants", "purlType", "setHash":
+		case "relateNode", "match":
 			if s.n == nil {
 				return "unknown-op"
 			}
@@ -110,6 +110,34 @@ func histExec(op M) (res any) {
 			regs[s.dst] = keep(regs[s.a].NodeDescendants(s.id, s.depth))
 		case "purlType":
 			regs[s.dst] = regs[s.a].GetNodesByPurlType(s.t).Copy()
+		case "setHash":
+			// the caller edits a node of the list in place
+			if nd := regs[s.a].GetNodeByID(s.id); nd != nil {
+				if nd.Hashes == nil {
+					nd.Hashes = map[int32]string{}
+				}
+				nd.Hashes[int32(s.ty)] = s.t
+			}
+		case "match":
+			// the outcome of matching a probe against the list, kept as a list of its own: the node
+			// found, nothing, or a node that says the match was ambiguous
+			r, err := regs[s.a].GetMatchingNode(s.n)
+			out := sbom.NewNodeList()
+			switch {
+			case err != nil:
+				out.Nodes, out.RootElements = []*sbom.Node{{Id: "ambiguous"}}, []string{"ambiguous"}
+			case r != nil:
+				c := r.Copy()
+				member := false
+				for _, nd := range regs[s.a].Nodes {
+					member = member || nd == r
+				}
+				if !member {
+					c.Id = "not a node of the list: " + c.Id
+				}
+				out.Nodes, out.RootElements = []*sbom.Node{c}, []string{c.Id}
+			}
+			regs[s.dst] = out
 		}
 		snap := []any{}
 		for _, r := range regs {
@@ -251,7 +279,49 @@ func histGen(g *G, tier string) []M {
 			M{"i": g2.Pick([]string{"intersect", "union"}), "dst": 2.0, "a": 0.0, "b": 1.0}}
 		extra = append(extra, M{"op": "hist", "regs": []any{r0, r1, M{"nodes": []any{}, "edges": []any{}, "roots": []any{}}}, "prog": prog})
 	}
+	// directed: a probe is matched against a list, the list is edited without changing its size (a
+	// node leaves and another comes, a member gets one more hash, a second carrier of the probe's
+	// hash replaces a bystander), and the probe is matched again
+	for i := 0; i < len(ops)/12+2; i++ {
+		h := func(k int) string { return fmt.Sprintf("%064d", 7000+k) }
+		nd := func(id string, hashes ...any) M { return M{"id": id, "type": 0.0, "a": M{"Hashes": hashes}} }
+		r0 := M{"nodes": []any{nd("x1", []any{3.0, h(1)}), nd("x2", []any{3.0, h(2)}), nd("x3", []any{3.0, h(3)})},
+			"edges": []any{M{"ty": 5.0, "src": "x2", "tos": []any{"x1", "x3"}}}, "roots": []any{"x2"}}
+		empty := func() M { return M{"nodes": []any{}, "edges": []any{}, "roots": []any{}} }
+		probe := nd("probe", []any{3.0, h(1)})
+		var prog []any
+		switch i % 3 {
+		case 0:
+			prog = []any{M{"i": "match", "dst": 1.0, "a": 0.0, "n": probe}, M{"i": "removeNodes", "a": 0.0, "ids": []any{"x1"}},
+				M{"i": "relateNode", "a": 0.0, "n": nd("x4", []any{3.0, h(4)}), "at": "x2", "ty": 5.0}, M{"i": "match", "dst": 2.0, "a": 0.0, "n": probe}}
+		case 1:
+			probe2 := nd("probe", []any{2.0, fmt.Sprintf("%040d", 9)})
+			prog = []any{M{"i": "match", "dst": 1.0, "a": 0.0, "n": probe2}, M{"i": "setHash", "a": 0.0, "id": "x2", "ty": 2.0, "t": fmt.Sprintf("%040d", 9)},
+				M{"i": "match", "dst": 2.0, "a": 0.0, "n": probe2}}
+		default:
+			prog = []any{M{"i": "match", "dst": 1.0, "a": 0.0, "n": probe}, M{"i": "removeNodes", "a": 0.0, "ids": []any{"x3"}},
+				M{"i": "relateNode", "a": 0.0, "n": nd("x5", []any{3.0, h(1)}), "at": "x2", "ty": 5.0}, M{"i": "match", "dst": 2.0, "a": 0.0, "n": probe}}
+		}
+		if g2.Chance(0.5) {
+			// and once more, to see the outcome of the first match again
+			prog = append(prog, prog[len(prog)-1])
+		}
+		extra = append(extra, M{"op": "hist", "regs": []any{r0, empty(), empty()}, "prog": prog, "spare": g2.Chance(0.5)})
+	}
 	return append(ops, extra...)
+}
+
+// histHasLookup: histories with steps the executable model has no instruction for are judged by
+// the oracles alone
+func histHasLookup(op M) bool {
+	for _, p := range asList(op["prog"]) {
+		if m, ok := p.(M); ok {
+			if i := asStr(m["i"]); i == "match" || i == "setHash" {
+				return true
+			}
+		}
+	}
+	return false
 }
 
 // histOracle: every register stays well-formed along the sequence (C08), given well-formed
@@ -288,7 +358,7 @@ func histOracle(op M, res any, exec func(M) any) []Finding {
 		step := asList(op["prog"])[k].(M)
 		written := int(asInt(step["a"]))
 		switch asStr(step["i"]) {
-		case "union", "intersect", "nodeGraph", "nodeSiblings", "nodeDescendants", "purlType":
+		case "union", "intersect", "nodeGraph", "nodeSiblings", "nodeDescendants", "purlType", "match":
 			written = int(asInt(step["dst"]))
 		}
 		cur := []any{}
@@ -335,7 +405,7 @@ func histOracle(op M, res any, exec func(M) any) []Finding {
 		switch asStr(step["i"]) {
 		case "nodeGraph", "nodeSiblings", "nodeDescendants":
 			props = []string{"C15"}
-		case "purlType":
+		case "purlType", "match":
 			props = []string{"C16"}
 		case "union":
 			props = []string{"C09"}
@@ -408,6 +478,6 @@ var HistStream = &Stream{
 	// sub-graph view); when its result is used uncopied, later in-place merges show through in the
 	// attributes of shared nodes, which the value model does not describe and no property forbids.
 	// Such histories are judged on structure only: identifiers, edges, roots, well-formedness
-	NoModel: func(op M) bool { return op["raw"] == true },
+	NoModel: func(op M) bool { return op["raw"] == true || histHasLookup(op) },
 	Reps:    2,
 }
